@@ -113,7 +113,19 @@ pub fn plan_calls(input: &[u8], seed: u64, max_calls: usize) -> Result<Vec<Call>
     Ok(out)
 }
 
+thread_local! {
+    /// C18: index (in the instance being observed) of the function that is being replaced; references to it
+    /// are printed as `funcref:REPLACED` on both sides (it is a host import in the model and a local
+    /// function in the output)
+    static SPECIAL_FUNC: std::cell::Cell<Option<u32>> = std::cell::Cell::new(None);
+}
+
 fn val_str(inst: &Instance, v: &Val) -> String {
+    if let Val::FuncRef(Some(f)) = v {
+        if SPECIAL_FUNC.with(|s| s.get()) == Some(*f) {
+            return "funcref:REPLACED".into();
+        }
+    }
     match v {
         Val::I32(x) => format!("i32:{}", x),
         Val::I64(x) => format!("i64:{}", x),
@@ -316,4 +328,215 @@ pub fn c01(c: &Case, rep: &mut Report, seed: u64) {
     }
     rep.sample(json!({"spec": c.spec, "instantiate": a.instantiate, "calls": calls.iter().take(3).map(|c| format!("{}({})", c.export, c.args.len())).collect::<Vec<_>>(), "first_outcomes": a.steps.iter().take(3).map(|s| s.0.chars().take(60).collect::<String>()).collect::<Vec<_>>(), "instrs": a.instrs}));
     rep.held(c);
+}
+
+// ------------------------------------------------------------------------------------------------
+// C18: function replacement
+// ------------------------------------------------------------------------------------------------
+
+fn marker_for(t: ValType) -> Val {
+    match t {
+        ValType::I32 => Val::I32(0x5EED_0001),
+        ValType::I64 => Val::I64(0x5EED_0002_0000_0003),
+        ValType::F32 => Val::F32(0x4049_0fdb),
+        ValType::F64 => Val::F64(0x4009_21fb_5444_2d18),
+        ValType::V128 => Val::V128(0x5EED_0004_0000_0000_0000_0000_0000_0005),
+        ValType::Ref(r) if r == wasmparser::RefType::EXTERNREF => Val::ExternRef(None),
+        ValType::Ref(_) => Val::FuncRef(None),
+    }
+}
+
+/// Host of the expected-behaviour model: the replaced import behaves like the new body.
+struct ReplHost {
+    inner: StdHost,
+    module: String,
+    field: String,
+}
+
+impl Host for ReplHost {
+    fn call(&mut self, module: &str, field: &str, call_count: u64, args: &[Val], results: &[ValType]) -> Result<Vec<Val>, Trap> {
+        if module == self.module && field == self.field {
+            return Ok(results.iter().map(|t| marker_for(*t)).collect());
+        }
+        self.inner.call(module, field, call_count, args, results)
+    }
+    fn global_import(&mut self, module: &str, field: &str, ty: ValType, mutable: bool) -> Option<Val> {
+        self.inner.global_import(module, field, ty, mutable)
+    }
+}
+
+fn normalise_traces(o: &mut Observation, prefix: &str) {
+    for s in o.steps.iter_mut() {
+        for t in s.1.iter_mut() {
+            if t.starts_with(prefix) {
+                *t = "REPLACED".to_string();
+            }
+        }
+    }
+}
+
+pub fn c18(c: &Case, rep: &mut Report, seed: u64) {
+    use wv_oracle::decode;
+    let end = c.end.unwrap();
+    if end.str("parse") != Some("ok") {
+        rep.count("not-accepted", 1);
+        rep.held(c);
+        return;
+    }
+    let input = c.input.unwrap_or(&[]);
+    if wv_oracle::feat::validate(input, false).is_err() {
+        rep.inconclusive(c, "input-rejected-by-reference-validator");
+        return;
+    }
+    let din = match decode::decode(input) {
+        Ok(d) => d,
+        Err(e) => {
+            rep.inconclusive(c, &format!("input-decode:{}", e));
+            return;
+        }
+    };
+    for (k, v) in &end.fields {
+        let p = std::str::from_utf8(v).unwrap_or("?");
+        if k.starts_with("panic.") {
+            rep.violation(c, &format!("C18/panic/{}", crate::basic::panic_signature(p)), &format!("{}: {}", k, p), &[]);
+        } else if k.starts_with("err.") {
+            rep.violation(c, "C18/replace-refused", &format!("{}: {}", k, p), &[]);
+        }
+    }
+    let case_seed = seed ^ wv_gen::rng::fnv64(c.spec.as_bytes());
+    let calls = plan_calls(input, case_seed, 10).unwrap_or_default();
+    let imp_list = |m: &decode::DModule| -> Vec<String> { m.imports.iter().map(|i| format!("{}/{} {:?}", i.module, i.field, match &i.kind { decode::DImportKind::Func(t) => format!("func {:?}", m.types.get(*t as usize)), other => format!("{:?}", other) })).collect() };
+    let mut replaced = 0;
+    for (k, out) in end.fields.iter().filter(|(k, _)| k.starts_with("out.")) {
+        let mut it = k[4..].split('.');
+        let (kind, fi) = (it.next().unwrap_or(""), it.next().and_then(|x| x.parse::<u32>().ok()).unwrap_or(u32::MAX));
+        let blob = [("out.wasm", &out[..])];
+        let which = if kind == "imp" { "replace_imported_func" } else { "replace_exported_func" };
+        if let Err(e) = wv_oracle::feat::validate(out, false) {
+            let sig: String = e.split(" (at offset").next().unwrap_or(&e).chars().take(60).collect();
+            rep.violation(c, &format!("C18/{}/output-invalid/{}", which, crate::basic::panic_signature(&format!("v: {}", sig))), &format!("function {}: {}", fi, e), &blob);
+            continue;
+        }
+        let dout = match decode::decode(out) {
+            Ok(d) => d,
+            Err(e) => {
+                rep.violation(c, "C18/output-undecodable", &e, &blob);
+                continue;
+            }
+        };
+        let func = match din.funcs.get(fi as usize) {
+            Some(f) => f,
+            None => continue,
+        };
+        replaced += 1;
+        // --- import list: only that import removed (plus the trace import the harness itself added, last)
+        let mut want_imports: Vec<String> = Vec::new();
+        for (i, s) in imp_list(&din).into_iter().enumerate() {
+            if kind == "imp" && func.import == Some(i) {
+                continue;
+            }
+            want_imports.push(s);
+        }
+        let got_imports = imp_list(&dout);
+        let trace_sig = "wv/trace";
+        let got_wo_trace: Vec<String> = got_imports.iter().filter(|s| !s.starts_with(trace_sig)).cloned().collect();
+        if got_wo_trace != want_imports {
+            rep.violation(c, &format!("C18/{}/import-list", which), &format!("function {}: imports expected {:?}, got {:?}", fi, want_imports, got_wo_trace), &blob);
+        }
+        // --- exports keep names and kinds
+        let mut ein: Vec<(String, decode::EKind)> = din.exports.iter().map(|e| (e.name.clone(), e.kind)).collect();
+        let mut eout: Vec<(String, decode::EKind)> = dout.exports.iter().map(|e| (e.name.clone(), e.kind)).collect();
+        ein.sort();
+        eout.sort();
+        if ein != eout {
+            rep.violation(c, &format!("C18/{}/exports-changed", which), &format!("{:?} became {:?}", ein, eout), &blob);
+        }
+        // --- behaviour against the expected model
+        let (mut a, b_) = if kind == "imp" {
+            let imp = &din.imports[func.import.unwrap_or(0)];
+            let host = ReplHost { inner: StdHost::new(), module: imp.module.clone(), field: imp.field.clone() };
+            SPECIAL_FUNC.with(|s| s.set(Some(fi)));
+            let mut a = observe(input, &calls, Box::new(host));
+            normalise_traces(&mut a, &format!("{}.{}(", imp.module, imp.field));
+            // in the output the replaced function is the one whose body starts with the harness marker
+            let out_idx = dout.funcs.iter().position(|f| f.body.as_ref().map(|b| matches!(b.ops.first().map(|o| &o.op), Some(wasmparser::Operator::I32Const { value: 0x7ACE }))).unwrap_or(false)).map(|i| i as u32);
+            SPECIAL_FUNC.with(|s| s.set(out_idx));
+            let b = observe(out, &calls, Box::new(StdHost::new()));
+            SPECIAL_FUNC.with(|s| s.set(None));
+            (a, b)
+        } else {
+            // the first export of that function is retargeted: calls to it behave like the new body,
+            // everything else (other exports, internal callers) still reaches the original
+            let first = din.exports.iter().find(|e| e.kind == decode::EKind::Func && e.index == fi).map(|e| e.name.clone()).unwrap_or_default();
+            let results: Vec<ValType> = din.sig_of_func(fi).map(|s| s.results.iter().map(|t| t.wp()).collect()).unwrap_or_default();
+            let a = observe_with_override(input, &calls, Box::new(StdHost::new()), &first, &results);
+            (a, observe(out, &calls, Box::new(StdHost::new())))
+        };
+        let mut b = b_;
+        normalise_traces(&mut b, "wv.trace(");
+        // the start function may call the replaced import: initial host-call summary differs in names only
+        if let (Some(x), Some(y)) = (a.initial_state.last_mut(), b.initial_state.last_mut()) {
+            if kind == "imp" {
+                let imp = &din.imports[func.import.unwrap_or(0)];
+                *x = x.replace(&format!("{}.{}(", imp.module, imp.field), "REPLACED(").replace("REPLACED(0)", "REPLACED(1)").replace("REPLACED(2)", "REPLACED(1)").replace("REPLACED(3)", "REPLACED(1)");
+                *y = y.replace("wv.trace(", "REPLACED(");
+            }
+        }
+        rep.count("replacements-executed", 1);
+        rep.count("calls-compared", a.steps.len() as u64);
+        if a.instantiate.contains("Unsupported") {
+            rep.inconclusive(c, "interpreter-limit-at-instantiation");
+            continue;
+        }
+        // a start function that calls the replaced import changes instantiation traces only by name: compare outcome
+        if let Some((sig, detail)) = diff(&a, &b, &calls) {
+            rep.violation(c, &format!("C18/{}/{}", which, sig), &format!("function {}: {}", fi, detail), &blob);
+        }
+        rep.observe("kinds", which);
+        let n_replaced_calls: usize = b.steps.iter().map(|s| s.1.iter().filter(|t| *t == "REPLACED").count()).sum();
+        rep.count("new-body-executions-observed", n_replaced_calls as u64);
+        a.steps.clear();
+    }
+    if replaced > 0 {
+        rep.nontrivial(c, "");
+    }
+    rep.sample(json!({"spec": c.spec, "replacements": replaced, "calls": calls.len()}));
+    rep.held(c);
+}
+
+/// Like `observe`, but calls to the export `name` are answered by the model of the replacement body
+/// (one traced host call, marker results) without running anything.
+pub fn observe_with_override(wasm: &[u8], calls: &[Call], host: Box<dyn Host>, name: &str, results: &[ValType]) -> Observation {
+    let mut o = Observation::default();
+    let mut inst = match Instance::instantiate(wasm, host, limits()) {
+        Ok(i) => i,
+        Err(e) => {
+            o.instantiate = inst_err_str(&e);
+            return o;
+        }
+    };
+    o.instantiate = "ok".into();
+    let tr = inst.take_host_trace();
+    o.initial_state = state_str(&inst);
+    o.initial_state.push(format!("start host calls: {}", tr.iter().map(|h| format!("{}.{}({:?})", h.module, h.field, h.args.len())).collect::<Vec<_>>().join(";")));
+    for c in calls {
+        if c.export == name {
+            let vals: Vec<Val> = results.iter().map(|t| marker_for(*t)).collect();
+            let s = outcome_str(&inst, &Outcome::Returned(vals));
+            let st = state_str(&inst);
+            o.steps.push((s, vec!["REPLACED".to_string()], st));
+            continue;
+        }
+        let out = inst.call_export(&c.export, &c.args);
+        let s = outcome_str(&inst, &out);
+        let trace: Vec<String> = inst
+            .take_host_trace()
+            .iter()
+            .map(|h| format!("{}.{}({}) -> [{}]", h.module, h.field, h.args.iter().map(|v| val_str(&inst, v)).collect::<Vec<_>>().join(","), h.results.iter().map(|v| val_str(&inst, v)).collect::<Vec<_>>().join(",")))
+            .collect();
+        let st = state_str(&inst);
+        o.steps.push((s, trace, st));
+    }
+    o.instrs = inst.stats().instrs_executed;
+    o
 }
